@@ -152,6 +152,8 @@ func BuildState(w []Acct) *state.StateDB {
 
 // Snap is the model's view of one account.
 type Snap struct {
+	Exists bool // StateDB.Exist
+	Dirty  bool // member of stateObjectsDirty (hook of the C09 package)
 	Bal   *big.Int
 	Nonce uint64
 	Code  uint64 // first 8 bytes of the code hash, 0 when there is no code
@@ -177,7 +179,10 @@ func u64of(b []byte) uint64 {
 }
 
 func SnapOf(sdb vm.StateDB, a common.Address) Snap {
-	s := Snap{Bal: new(big.Int).Set(sdb.GetBalance(a)), Nonce: sdb.GetNonce(a)}
+	s := Snap{Bal: new(big.Int).Set(sdb.GetBalance(a)), Nonce: sdb.GetNonce(a), Exists: sdb.Exist(a)}
+	if full, ok := sdb.(*state.StateDB); ok {
+		s.Dirty = full.VerifIsDirty(a)
+	}
 	ch := sdb.GetCodeHash(a)
 	if ch != (common.Hash{}) && ch != emptyCodeHash {
 		s.Code = u64of(ch[:])
@@ -224,8 +229,26 @@ func snapTok(a common.Address, s Snap) string {
 	return HexAddr(a) + ":" + HexBig(s.Bal) + ":" + HexU(s.Nonce) + ":" + HexU(s.Code) + ":" + HexU(s.Stor)
 }
 
-// DumpState renders the state over the universe exactly as ocaml/tx/driver.ml dump_state does.
+// DumpState renders the state over the universe exactly as ocaml/tx/driver.ml dump_exact does:
+// every EXISTING account (also the empty ones), sorted by address.
 func DumpState(sdb vm.StateDB, u Universe) string {
+	var parts []string
+	for _, a := range u.Sorted() {
+		s := SnapOf(sdb, a)
+		if s.Exists {
+			parts = append(parts, snapTok(a, s))
+		} else if !s.Empty() {
+			parts = append(parts, snapTok(a, s)+"!nonexistent-with-content")
+		}
+	}
+	if len(parts) == 0 {
+		return "-"
+	}
+	return strings.Join(parts, ",")
+}
+
+// DumpStateLoose drops empty accounts (driver.ml dump_state): for requests that carry no existence information.
+func DumpStateLoose(sdb vm.StateDB, u Universe) string {
 	var parts []string
 	for _, a := range u.Sorted() {
 		s := SnapOf(sdb, a)
@@ -237,6 +260,47 @@ func DumpState(sdb vm.StateDB, u Universe) string {
 		return "-"
 	}
 	return strings.Join(parts, ",")
+}
+
+// ExpectedRoot builds a FRESH state from the content the model expects (its `state=` dump: existing accounts
+// with balance, nonce, code digest, storage digest) and returns its root.  Code and the eight modelled storage
+// slots are copied from the real state when their digests agree with the expected ones (otherwise they are
+// left out, so the roots differ).  Equality with the real root means the whole real state — every account of
+// the trie, every storage slot — is exactly the expected content.
+func ExpectedRoot(real *state.StateDB, dump string) (common.Hash, error) {
+	sdb := NewMemState()
+	if i := strings.Index(dump, " "); i >= 0 {
+		dump = dump[:i]
+	}
+	if dump != "-" && dump != "" {
+		for _, e := range strings.Split(dump, ",") {
+			f := strings.Split(e, ":")
+			if len(f) != 5 {
+				return common.Hash{}, fmt.Errorf("bad dump entry %q", e)
+			}
+			a := common.BigToAddress(Big(f[0]))
+			bal, nonce, code, stor := Big(f[1]), Big(f[2]), Big(f[3]), Big(f[4])
+			if bal == nil || nonce == nil || code == nil || stor == nil || bal.Sign() < 0 {
+				return common.Hash{}, fmt.Errorf("bad dump entry %q", e)
+			}
+			sdb.CreateAccount(a)
+			sdb.SetBalance(a, bal)
+			sdb.SetNonce(a, nonce.Uint64())
+			rs := SnapOf(real, a)
+			if code.Sign() != 0 && code.Uint64() == rs.Code {
+				sdb.SetCode(a, real.GetCode(a))
+			}
+			if stor.Sign() != 0 && stor.Uint64() == rs.Stor {
+				for i := 0; i < 8; i++ {
+					k := common.BytesToHash([]byte{byte(i)})
+					if v := real.GetState(a, k); v != (common.Hash{}) {
+						sdb.SetState(a, k, v)
+					}
+				}
+			}
+		}
+	}
+	return sdb.Commit(false)
 }
 
 // Supply sums every balance of the committed form of the state (RawDump over a finalised copy).
@@ -394,7 +458,24 @@ func (t *Tracer) Oracle() string {
 	if len(d) > 0 {
 		ds = strings.Join(d, "+")
 	}
-	return fmt.Sprintf("%s:%s:%s:%s:%s:%s", t.Status(), HexU(t.GasLeft), HexU(t.Refund), HexU(uint64(t.Logs)), su, ds)
+	var cr, di []string
+	for _, a := range t.U.Sorted() {
+		s, e := t.Start[a], t.End[a]
+		if e.Exists && !s.Exists {
+			cr = append(cr, HexAddr(a))
+		}
+		if e.Dirty && !s.Dirty {
+			di = append(di, HexAddr(a))
+		}
+	}
+	crs, dis := "-", "-"
+	if len(cr) > 0 {
+		crs = strings.Join(cr, "+")
+	}
+	if len(di) > 0 {
+		dis = strings.Join(di, "+")
+	}
+	return fmt.Sprintf("%s:%s:%s:%s:%s:%s:%s:%s", t.Status(), HexU(t.GasLeft), HexU(t.Refund), HexU(uint64(t.Logs)), su, ds, crs, dis)
 }
 
 // ------------------------------------------------------------------ running one transaction
